@@ -55,7 +55,10 @@ def run_cases(mod, cases):
             mo = mo if mo == SKIP else canon(mo)
         except Exception as e:
             mo = {"__model_decode_error__": repr(e), "raw": answers[a:b][:3]}
-        agree = (mo == SKIP) or (mod.agree(io, mo) if hasattr(mod, 'agree') else mo == io)
+        if isinstance(mo, dict) and '__model_decode_error__' in mo:
+            agree = False
+        else:
+            agree = (mo == SKIP) or (mod.agree(io, mo) if hasattr(mod, 'agree') else mo == io)
         try:
             orc = mod.oracle(c, io)
         except Exception as e:
